@@ -9,6 +9,9 @@ use harness::ops::*;
 use harness::plan;
 use std::collections::HashMap;
 
+#[global_allocator]
+static GLOBAL: harness::trap::TrapAlloc = harness::trap::TrapAlloc;
+
 fn main() {
     let args: Vec<String> = std::env::args().collect();
     let mut opt: HashMap<String, String> = HashMap::new();
